@@ -312,7 +312,18 @@ def run_unit(template, tier='quick', keep=True, extra_defs=None, repo=None, buil
         else:
             outc = os.path.join(bdir, 'canary.json')
             ce = [x for x in cb_extra if x != '--unwinding-assertions']
-            cmd = ['cbmc', gbc, '--no-standard-checks'] + ce + ['--json-ui', '--verbosity', '4']
+            cpj = os.path.join(bdir, 'canary.props.json')
+            run(['cbmc', gbc, '--no-standard-checks'] + ce + ['--show-properties', '--json-ui'],
+                os.path.join(bdir, 'canary.props.log'), 300, mem, stdout_path=cpj)
+            csel = []
+            try:
+                for item in json.load(open(cpj)):
+                    for q in item.get('properties', []) if isinstance(item, dict) else []:
+                        if q.get('description', '').startswith('canary'):
+                            csel += ['--property', q['name']]
+            except Exception:
+                pass
+            cmd = ['cbmc', gbc, '--no-standard-checks', '--slice-formula'] + ce + csel + ['--json-ui', '--verbosity', '4']
             rc, secs = run(cmd, os.path.join(bdir, 'canary.log'), tmo, mem, stdout_path=outc)
             res['cmds'].append(' '.join(cmd))
             cprops, _, _ = parse_cbmc_json(outc)
